@@ -38,6 +38,7 @@ def run(ctx):
     ctx.guard(r3)
     ctx.guard(r4)
     ctx.guard(r5)
+    ctx.guard(r6_lazy_default)
 
 
 def _single_return_call(ctx, f):
@@ -473,3 +474,33 @@ def _lazy_class(ctx, f, ci):
                     if text(t.value) != selfn:
                         ctx.bad("C07.R5", it, n, "__iter__ of %s assigns a class "
                                 "attribute: state leaks between traversals" % ci.name)
+
+
+# -- R6: a pruned / projected fiber filters with the source's default --------------
+
+def r6_lazy_default(ctx):
+    """Iterating the lazy result of prune() / project() goes through
+    iterRange again, which skips payloads that are empty w.r.t. the *result's*
+    default.  The result must therefore be given the source fiber's default;
+    otherwise (constructor default 0) an accepted element holding 0 in a
+    fiber with another default disappears from the traversal."""
+    for name in ("prune", "project"):
+        f = ctx.method("Fiber", name)
+        calls = [c for c in pat.calls(f, attr="fromIterator")]
+        ctx.require(calls, "C07.R6: Fiber.%s no longer builds a lazy fiber" % name)
+        c = calls[-1]
+        st = enclosing_stmt(c)
+        R = text(st.targets[0]) if isinstance(st, ast.Assign) else None
+        ds = [x for x in pat.calls(f, attr="_setDefault")
+              if R and text(x.func.value) == R and x.args and
+              text(x.args[0]).replace(" ", "") == "%s.getDefault()" % f.params[0]]
+        if ds:
+            ctx.ok("C07.R6", f, ds[0], "lazy result carries the source's default",
+                   text_="%s result default" % name)
+        else:
+            ctx.bad("C07.R6", f, c, "the lazy fiber Fiber.%s returns is not given "
+                    "the source's default (`%s._setDefault(%s.getDefault())`): "
+                    "its traversal filters emptiness against 0, so accepted "
+                    "elements holding 0 under a non-zero default are dropped"
+                    % (name, R or "result", f.params[0]),
+                    text_="%s result default" % name)
